@@ -840,6 +840,10 @@ pub fn with<R>(f: impl FnOnce(&mut Sim) -> R) -> R {
 pub fn set_quiet(q: bool) {
     with(|s| {
         s.quiet = q;
+        // the byte budget is per phase
+        for sl in s.slots.iter_mut() {
+            sl.alloc_bytes = 0;
+        }
         if !q && s.cfg.sched == SchedMode::Pct {
             let base = s.stats.steps;
             let h = s.cfg.pct_horizon.max(1);
@@ -977,9 +981,8 @@ pub fn hook_alloc(size: usize) {
         return;
     }
     let s = unsafe { &mut *p };
-    if s.quiet {
-        return;
-    }
+    // always counted (the stall watchdog and the byte budget also cover the quiet reference phase);
+    // only the explored phase turns allocations into scheduling points
     s.slots[tid].alloc_count += 1;
     s.slots[tid].alloc_bytes += size as u64;
     let every = s.cfg.alloc_every;
